@@ -16,7 +16,12 @@
                       true  = repaired, at the latitude of the straight map line.
      fixz   (FC04a) : false = as coded, a zero-length crossing segment splits its value by 0/0;
                       true  = repaired, the first part keeps the value.
-   Geodesic lengths are external (pyproj): they enter through the function argument [dist]. *)
+   Geodesic lengths are external (pyproj): they enter through the function argument [dist].  Once FC04c is
+   repaired (latitudes handed to the geodesic are clipped to +-pi/2) [dist] stands for pyproj after that clip —
+   still a pseudo-metric, so nothing changes on this side; the harness mirrors the clip (switch clipd).
+   The numeric kernels below (line_*, lon_at_lat, lat_at_lon, mid, frac, piece_value, cell_index, crossing,
+   crossing_lat, exit_lon, entry_lon, split_val) are proved equal to the text regenerated from grid.py on every
+   run in coq/link/C04_Link.v and coq/link/C05_Link.v. *)
 From Coq Require Import ZArith List Bool PrimFloat.
 From AV Require Import lib.Num.
 Import ListNotations.
@@ -89,8 +94,18 @@ Section M.
     if (d <? 0)%Z then map (fun j => (s - Z.of_nat j)%Z) (seq 0 (Z.to_nat (- d)))
     else map (fun j => (s + 1 + Z.of_nat j)%Z) (seq 0 (Z.to_nat d)).
 
+  Definition mid (a b : T) : T := (a + b) / two.
   Definition midpoint (ab : point * point) : point :=
-    let '((la, lo), (lb, lob)) := ab in ((la + lb) / two, (lo + lob) / two).
+    let '((la, lo), (lb, lob)) := ab in (mid la lb, mid lo lob).
+
+  (* the numeric kernels of calculate_line_parameters and of the intersection coordinates; the text
+     regenerated from grid.py on every run (Gen.C04_Extracted) is proved equal to these in link/C04_Link.v *)
+  Definition line_vertical (x0 x1 : T) : bool := (x1 - x0) =? zero.          (* slope = inf in the code *)
+  Definition line_slope (x0 y0 x1 y1 : T) : T := (y1 - y0) / (x1 - x0).
+  Definition line_intercept (x0 y0 slope : T) : T := y0 - slope * x0.
+  Definition lon_at_lat (slope icpt y : T) : T := slope * y + icpt.
+  Definition lat_at_lon (vertical : bool) (lat0 slope icpt x : T) : T :=
+    if vertical then lat0 else (x - icpt) / slope.
 
   (* (cells, chain): cells = (lat index, lon index) per piece, chain = piece end points *)
   Definition seg_geometry (clamp : bool) (glat glon : list T) (p0 p1 : point)
@@ -99,9 +114,9 @@ Section M.
     let '(lat1, lon1) := p1 in
     let dlat := lat1 - lat0 in
     let dlon := lon1 - lon0 in
-    let vertical := dlat =? zero in            (* slope = inf in the code *)
-    let slope := dlon / dlat in
-    let icpt := lon0 - slope * lat0 in
+    let vertical := line_vertical lat0 lat1 in
+    let slope := line_slope lat0 lon0 lat1 lon1 in
+    let icpt := line_intercept lat0 lon0 slope in
     let a0 := cell_index clamp glat lat0 in
     let a1 := cell_index clamp glat lat1 in
     let b0 := cell_index clamp glon lon0 in
@@ -110,8 +125,8 @@ Section M.
     let db := (b1 - b0)%Z in
     let latlines := map (py_nth glat) (crossed a0 da) in
     let lonlines := map (py_nth glon) (crossed b0 db) in
-    let lons_for_lat := map (fun y => slope * y + icpt) latlines in
-    let lats_for_lon := map (fun x => if vertical then lat0 else (x - icpt) / slope) lonlines in
+    let lons_for_lat := map (lon_at_lat slope icpt) latlines in
+    let lats_for_lon := map (lat_at_lon vertical lat0 slope icpt) lonlines in
     let ilats := sort_dir (nsign dlat) (latlines ++ lats_for_lon) in
     let ilons := sort_dir (nsign dlon) (lonlines ++ lons_for_lat) in
     let pts := combine ilats ilons in
@@ -145,8 +160,10 @@ Section M.
   Definition frac (fix3 : bool) (cnt : nat) (D d : T) : T :=
     if D =? zero then (if fix3 then one / of_Z (Z.of_nat cnt) else zero) else d / D.
 
+  Definition piece_value (fix3 : bool) (v : T) (cnt : nat) (D d : T) : T := v * frac fix3 cnt D d.
+
   Definition seg_values (fix3 : bool) (v D : T) (ds : list T) : list T :=
-    map (fun d => v * frac fix3 (length ds) D d) ds.
+    map (piece_value fix3 v (length ds) D) ds.
 
   (* dd: per segment (segment length, piece lengths) *)
   Definition part_values (fix3 : bool) (var : list T) (dd : list (T * list T)) : list T :=
